@@ -1453,6 +1453,10 @@ theorem translated_transitions :
        ("mprotect_noaccess", "dryoc_mprotect_noaccess", "old.a.as_slice()", "pm", "NoAccess", "A, traits::NoAccess, traits::Unlocked")] :=
   Proofs.GenProtectedShape.transitions
 
+theorem translated_madvise_advice :
+    Gen.Protected.madvise_advice = [("dryoc_mlock", "MADV_DONTDUMP"), ("dryoc_munlock", "MADV_DODUMP")] :=
+  Proofs.GenProtectedShape.madvise_advice
+
 theorem translated_drop_path :
     Gen.Protected.zeroize_body_is_canonical = true ∧ Gen.Protected.drop_is_zeroize = true ∧
     Gen.Protected.deallocate_wipes_before_free = true :=
